@@ -1147,3 +1147,18 @@ def c17_gen(r, tier):
             except Exception:
                 continue
             yield {"rule": rule, "doc": enc(d), "via": "spec", "spec": spec, "tag": tag}
+    # escaped literal mappings (one and several items) as items of a list argument and as values of a mapping argument
+    lit1, lit2 = {"path": ["A", "B"]}, {"path": ["A", "B"], "key": "val"}
+    esc1, esc2 = {"\\path": ["A", "B"]}, {"\\path": ["A", "B"], "key": "val"}
+    for d in ({"x": lit1, "A": {"B": 7}}, {"x": lit2, "A": {"B": 7}}, {"x": 7, "A": {"B": 7}}, {"x": esc2, "A": {"B": 1}}):
+        for spec_arg, lit_arg, m, tag in (
+                ([esc1, 5], [lit1, 5], "in_", "spec-escaped-in-list"),
+                ([esc2, 5], [lit2, 5], "in_", "spec-escaped-multi-in-list"),
+                ([{"path": ["A", "B"]}, esc2], [{"$path": {"parts": [{"$prim": "A"}, {"$prim": "B"}]}}, lit2], "in_", "spec-path-and-escaped-in-list")):
+            rule = {"path": {"parts": [{"$prim": "x"}]}, "cond": G.leaf("Value", m, lit_arg)}
+            spec = {"path": ["x"], "condition": {"value.in": spec_arg}}
+            try:
+                O.RuleTestSpec(rule, d)
+            except Exception:
+                continue
+            yield {"rule": rule, "doc": enc(d), "via": "spec", "spec": spec, "tag": tag}
